@@ -10,6 +10,7 @@ import (
 	"fmt"
 	"math"
 	"math/big"
+	"strings"
 
 	"github.com/tdewolff/canvas/text"
 	"verifharness/hc"
@@ -278,7 +279,28 @@ func judge(c *hc.Ctx, pa para, res []brk, ok bool) {
 		c.Count("outcome:overflow")
 	}
 
-	// 1. structure: strictly increasing legal breakpoints, all forced breaks, ends at the final one
+	// 1. structure: strictly increasing legal breakpoints, all forced breaks, ends at the final one.
+	// The VERDICT is given by the Lean specification `structClass` (proved sound: C17.structVerdict_sound):
+	// the raw observation goes out as a `!` line; a FAIL there is a property failure of kind
+	// "structure:<class>". The checks below only decide whether the deeper oracle parts can run.
+	{
+		var sb strings.Builder
+		sb.WriteString("VS" + encode(pa)[2:] + " R")
+		for _, b := range res {
+			fmt.Fprintf(&sb, " %d", b.pos)
+		}
+		c.Case(sb.String(), "!", "structure")
+		c.Count("lean-verdict:structure")
+	}
+	rep0 := rep
+	rep = func(kind, desc string) {
+		switch kind {
+		case "empty-result", "not-increasing", "illegal-breakpoint", "not-ending-at-final", "forced-break-skipped":
+			c.Count("structure-failure-seen-by-go:" + kind) // judged by the Lean verdict
+			return
+		}
+		rep0(kind, desc)
+	}
 	if len(res) == 0 {
 		rep("empty-result", "no breakpoint returned")
 		return
@@ -371,6 +393,50 @@ func judge(c *hc.Ctx, pa para, res []brk, ok bool) {
 	}
 	if relaxed && ok {
 		c.Count("outcome:relaxed")
+	}
+	// branches of the modelled functions reached by the returned lines
+	for _, b := range res {
+		c.Count(fmt.Sprintf("branch:fitness-class-%d", b.fit))
+		it := pa.items[b.pos]
+		switch {
+		case it.Type == text.GlueType:
+			c.Count("branch:break-at-glue")
+		case isForced(pa, b.pos):
+			c.Count("branch:break-at-forced-penalty")
+		case it.Penalty >= 0:
+			c.Count("branch:break-at-positive-penalty")
+		default:
+			c.Count("branch:break-at-negative-penalty")
+		}
+		if it.Type == text.PenaltyType && it.Width != 0 {
+			c.Count("branch:break-at-penalty-with-width")
+		}
+	}
+	for k, m := range tab {
+		_ = k
+		switch {
+		case m.signed:
+			c.Count("branch:ratio:break-before-first-box")
+		case m.kind > 0:
+			c.Count("branch:ratio:underfull-unstretchable")
+		case m.kind < 0:
+			c.Count("branch:ratio:overfull-unshrinkable")
+		case m.rf > 0:
+			c.Count("branch:ratio:underfull-stretch")
+		case m.rf < 0:
+			c.Count("branch:ratio:overfull-shrink")
+		default:
+			c.Count("branch:ratio:exact-fit")
+		}
+	}
+	for i, it := range pa.items {
+		if it.Type == text.PenaltyType && it.Width != 0 && isLegal(pa, i) {
+			c.Count("branch:deactivation-without-penalty-width")
+			break
+		}
+	}
+	if pa.loose != 0 {
+		c.Count("branch:looseness-selection")
 	}
 
 	// 3. exhaustive: feasibility, optimality, minimal relaxation, overflow
